@@ -5,6 +5,7 @@
 import Drx.LinkJs
 import DrxProofs.LscrConst
 import DrxProofs.SpecJs
+import DrxProofs.LinkJsThe
 namespace Drx.LinkJs
 open Drx Drx.Lscr Drx.Spec
 set_option linter.unusedSimpArgs false
@@ -556,6 +557,37 @@ theorem jsBinOp_info' (op : BinOp) (o : String) (h : jsBinOp op = some o) : (jsO
 theorem jsMethodOp_lex (op : BinOp) (m : String) (h : jsMethodOp op = some m) : jsIdLex m.toList = true := by
   cases op <;> simp [jsMethodOp] at h <;> subst h <;> decide
 
+/-- an index of `idxJsOk` is an expression of the fragment -/
+theorem idxJsOk_ok (e : Expr) (h : idxJsOk e = true) : JsOkE e = true := by
+  cases e with
+  | int k => rfl
+  | var kd v =>
+    cases kd with
+    | loc => simp only [idxJsOk, Bool.and_eq_true] at h; simp only [JsOkE, Bool.or_eq_true]; exact Or.inr h.1
+    | param => simp only [idxJsOk, Bool.and_eq_true] at h; simp only [JsOkE, Bool.or_eq_true]; exact Or.inr h.1
+    | _ => simp [idxJsOk] at h
+  | _ => simp [idxJsOk] at h
+
+/-- the property name `toJs` takes from a table is an identifier when all names of the table are -/
+theorem prop_lex (tb : List (Nat × String)) (htb : (tb.all fun x => jsIdLex x.2.toList) = true) (k : Nat) :
+    jsIdLex ((tblLookupIdx tb k).getD "UNKNOWN".toList) = true := by
+  unfold tblLookupIdx
+  cases hf : tb.find? (fun x => x.1 == k) with
+  | none => decide
+  | some x =>
+    rw [List.all_eq_true] at htb
+    simpa using htb x (List.mem_of_find?_eq_some hf)
+
+theorem chunkTy_lex (r : Nat) (ty : Str) (h : Link.chunkTy r = some ty) : jsIdLex ty = true := by
+  unfold Link.chunkTy at h
+  cases ho : ChunkKind.ofRank r with
+  | none => rw [ho] at h; simp at h
+  | some ck =>
+    rw [ho] at h
+    simp only [Option.map_some, Option.some.injEq] at h
+    subst h
+    cases ck <;> decide
+
 mutual
 theorem toJsE_lexok (c : JCtx) : ∀ (e : Expr), JsOkE e = true → LexOK (toJsE c e)
   | .int _, _ => by simp [toJsE, LexOK]
@@ -637,12 +669,70 @@ theorem toJsE_lexok (c : JCtx) : ∀ (e : Expr), JsOkE e = true → LexOK (toJsE
   | .float _ _, h => by simp [JsOkE] at h
   | .me, h => by simp [JsOkE] at h
   | .mcall _ _ _, h => by simp [JsOkE] at h
-  | .plist _, h => by simp [JsOkE] at h
-  | .the _ _ _, h => by simp [JsOkE] at h
-  | .key _, h => by simp [JsOkE] at h
+  | .plist as, h => by
+    have fas := toJsEs_lexok c as (by simpa [JsOkE] using h)
+    have hl : jsIdLex "propList".toList = true := by decide
+    simp only [toJsE, jcall, LexOK]; exact ⟨hl, fas⟩
+  | .oprop v o, h => by
+    simp only [JsOkE, Bool.and_eq_true] at h
+    simp only [toJsE, LexOK]; exact ⟨toJsE_lexok c o h.2, h.1⟩
+  | .chunk k a b d, h => by
+    simp only [JsOkE, Bool.and_eq_true] at h
+    have fa := toJsE_lexok c a h.1.1
+    have fb := toJsE_lexok c b h.1.2
+    have fd := toJsE_lexok c d h.2
+    have hr : jsIdLex "range".toList = true := by decide
+    have hk : jsIdLex k.tag.toList = true := by cases k <;> decide
+    simp only [toJsE, jmem, LexOK]
+    refine ⟨⟨fd, hk⟩, ?_⟩
+    split
+    · exact fa
+    · simp only [jcall, LexOK, LexOKL]; exact ⟨hr, fa, fb, trivial⟩
+  | .the t k as, h => by
+    match as, h with
+    | [e], h =>
+      rcases jsOkE_the t k e h with ⟨h1, h2⟩ | ⟨op, r, ty, hs, hty, _, _, he⟩ | ⟨rfl, he⟩
+      · have fe := toJsE_lexok c e (idxJsOk_ok e h2)
+        cases t with
+        | sound =>
+          simp only [toJsE, toJsEs, toJsThe, jcall, LexOK, LexOKL]
+          exact ⟨⟨by decide, fe, trivial⟩, prop_lex tblSound (by decide) k⟩
+        | sprite =>
+          simp only [toJsE, toJsEs, toJsThe, jcall, LexOK, LexOKL]
+          exact ⟨⟨by decide, fe, trivial⟩, prop_lex tblSprite (by decide) k⟩
+        | cast =>
+          simp only [toJsE, toJsEs, toJsThe, jcall, LexOK, LexOKL]
+          exact ⟨⟨by decide, fe, trivial⟩, prop_lex tblCast (by decide) k⟩
+        | video =>
+          simp only [toJsE, toJsEs, toJsThe, jcall, LexOK, LexOKL]
+          exact ⟨⟨by decide, fe, trivial⟩, prop_lex tblVideo (by decide) k⟩
+        | _ => simp [Link.theTbl] at h1
+      · have fe := toJsE_lexok c e he
+        have hty' : jsIdLex ty = true := chunkTy_lex r ty hty
+        rcases toJsE_strThe c t k e op r ty hs hty with ⟨_, e1⟩ | ⟨_, e1⟩
+        · rw [e1]; simp only [LexOK]; exact ⟨⟨fe, hty'⟩, by decide⟩
+        · rw [e1]; simp only [jmem, LexOK]; exact ⟨⟨fe, hty'⟩, by decide⟩
+      · have fe := toJsE_lexok c e he
+        rw [toJsE_fieldThe]
+        simp only [jcall, LexOK, LexOKL]
+        exact ⟨⟨by decide, fe, trivial⟩, prop_lex tblCast (by decide) k⟩
+    | [], h =>
+      cases t with
+      | special =>
+        have hk : k < 6 := by simpa [JsOkE] using h
+        simp only [toJsE, toJsEs, toJsThe, hk, if_true, LexOK]
+        exact ⟨lexok_jid "_system" (by decide), (special_owner k hk).2⟩
+      | _ => simp [JsOkE] at h
+    | _ :: _ :: _, h => simp [JsOkE] at h
+  | .key v, h => by
+    have hv : jsIdLex v = true := by simpa [JsOkE] using h
+    by_cases hd : v = "date".toList ∨ v = "time".toList
+    · simp only [toJsE, hd, if_true, jmem, LexOK, LexOKL]
+      refine ⟨⟨lexok_jid "_system" (by decide), by decide⟩, ?_, trivial⟩
+      rcases hd with rfl | rfl <;> decide
+    · simp only [toJsE, hd, if_false, LexOK]
+      exact ⟨lexok_jid _ (key_owner_lex v), hv⟩
   | .movie _, h => by simp [JsOkE] at h
-  | .oprop _ _, h => by simp [JsOkE] at h
-  | .chunk _ _ _ _, h => by simp [JsOkE] at h
 theorem toJsEs_lexok (c : JCtx) : ∀ (es : List Expr), JsOkL es = true → LexOKL (toJsEs c es)
   | [], _ => by simp [toJsEs, LexOKL]
   | e :: es, h => by
@@ -656,55 +746,128 @@ theorem jsIdOk_okId (n : Spec.Name) (h : jsIdOk n = true) : OkId n := by
   refine ⟨h.2, ?_⟩
   intro e; rw [e] at h; exact absurd h.2 (by decide)
 
+theorem okId_of (x : String) (h : (isJsKeyword x.toList = false ∧ x.toList ≠ "new".toList)) : JFrag (jid x) := by
+  simp only [jid, JFrag]; exact h
+
 mutual
-/-- the fragment of the link lies inside the source fragment of the spec layer's own theorem (`JsSrc`) -/
-theorem jsOk_src : ∀ (e : Expr), JsOkE e = true → JsSrc e
-  | .int _, _ => trivial
-  | .str _, _ => trivial
-  | .sym _, _ => trivial
+/-- the translation of a fragment expression lies in the fragment of the reader theorem (`JFrag`: every identifier is a
+    non-reserved word, operators are the thirteen infix ones) — agent-lspec's `toJsE_frag`, re-proved on `JsOkE` because their source
+    fragment `JsSrc` leaves out the built-in `the … of <object>` tables -/
+theorem toJsE_fragJ (c : JCtx) : ∀ (e : Expr), JsOkE e = true → JFrag (toJsE c e)
+  | .int _, _ => by simp [toJsE, JFrag]
+  | .str _, _ => by simp [toJsE, JFrag]
+  | .sym n, _ => by
+    simp only [toJsE, jcall, JFrag, JFragL]; exact ⟨by decide, trivial, trivial⟩
   | .var .loc n, h => by
     simp only [JsOkE, Bool.or_eq_true, beq_iff_eq] at h
-    rcases h with h | h
-    · exact Or.inl h
-    · exact Or.inr (jsIdOk_okId n h)
+    by_cases hm : n = "me".toList
+    · simp only [toJsE, hm, if_true]; exact okId_of "this" (by decide)
+    · rcases h with h | h
+      · exact absurd h hm
+      · simp only [toJsE, hm, if_false, JFrag]; exact jsIdOk_okId n h
   | .var .param n, h => by
     simp only [JsOkE, Bool.or_eq_true, beq_iff_eq] at h
-    rcases h with h | h
-    · exact Or.inl h
-    · exact Or.inr (jsIdOk_okId n h)
-  | .var .glob _, _ => trivial
-  | .var .prop _, _ => trivial
-  | .un _ a, h => by
-    have : JsSrc a := jsOk_src a (by simpa [JsOkE] using h)
-    simpa [JsSrc] using this
+    by_cases hm : n = "me".toList
+    · simp only [toJsE, hm, if_true]; exact okId_of "this" (by decide)
+    · rcases h with h | h
+      · exact absurd h hm
+      · simp only [toJsE, hm, if_false, JFrag]; exact jsIdOk_okId n h
+  | .var .glob n, _ => by simp only [toJsE, JFrag]; exact okId_of "_global" (by decide)
+  | .var .prop n, _ => by simp only [toJsE, JFrag]; exact okId_of "this" (by decide)
+  | .un .neg a, h => by
+    have := toJsE_fragJ c a (by simpa [JsOkE] using h)
+    simp only [toJsE, JFrag]; exact ⟨Or.inl trivial, this⟩
+  | .un .not a, h => by
+    have := toJsE_fragJ c a (by simpa [JsOkE] using h)
+    simp only [toJsE, JFrag]; exact ⟨Or.inr trivial, this⟩
   | .field a, h => by
-    have : JsSrc a := jsOk_src a (by simpa [JsOkE] using h)
-    simpa [JsSrc] using this
-  | .bin _ a b, h => by
+    have := toJsE_fragJ c a (by simpa [JsOkE] using h)
+    simp only [toJsE, jcall, JFrag, JFragL]; exact ⟨by decide, this, trivial⟩
+  | .bin op a b, h => by
     simp only [JsOkE, Bool.and_eq_true] at h
-    exact ⟨jsOk_src a h.1, jsOk_src b h.2⟩
+    have fa := toJsE_fragJ c a h.1
+    have fb := toJsE_fragJ c b h.2
+    have hs : isJsKeyword "sprite".toList = false ∧ "sprite".toList ≠ "new".toList := by decide
+    cases hop : jsBinOp op with
+    | some o =>
+      simp only [toJsE, hop, JFrag]
+      exact ⟨jsBinOp_info' op o hop, fa, fb⟩
+    | none =>
+      cases hm : jsMethodOp op with
+      | some m => simp only [toJsE, hop, hm, jmem, JFrag, JFragL]; exact ⟨fa, fb, trivial⟩
+      | none =>
+        simp only [toJsE, hop, hm, jmem, jcall, JFrag, JFragL]
+        exact ⟨⟨hs, fa, trivial⟩, ⟨hs, fb, trivial⟩, trivial⟩
   | .call f as, h => by
     simp only [JsOkE, Bool.and_eq_true, Bool.not_eq_true'] at h
     obtain ⟨⟨⟨hid, hsp⟩, _⟩, has⟩ := h
+    have hok := jsIdOk_okId f hid
+    have hnew : f ≠ "new".toList := hok.2
     simp only [specialCall, Bool.or_eq_false_iff, beq_eq_false_iff_ne, ne_eq] at hsp
-    exact ⟨⟨jsIdOk_okId f hid, hsp.1.1.1.1, hsp.1.1.1.2, hsp.1.1.2, hsp.1.2⟩, jsOk_srcL as has⟩
+    have h1 : ¬ f = "birth".toList := hsp.1.1.1.1
+    have h2 : ¬ f = "go".toList := hsp.1.1.1.2
+    have h3 : ¬ f = "cast".toList := hsp.1.1.2
+    have h4 : ¬ f = "continue".toList := hsp.1.2
+    have fas := toJsEs_fragJ c as has
+    simp only [toJsE, toJsCall, h1, hnew, h2, h3, h4, if_false, JFrag]
+    exact ⟨hok, fas⟩
   | .list as, h => by
-    have := jsOk_srcL as (by simpa [JsOkE] using h)
-    simpa [JsSrc] using this
+    have fas := toJsEs_fragJ c as (by simpa [JsOkE] using h)
+    simp only [toJsE, jcall, JFrag]; exact ⟨by decide, fas⟩
+  | .plist as, h => by
+    have fas := toJsEs_fragJ c as (by simpa [JsOkE] using h)
+    simp only [toJsE, jcall, JFrag]; exact ⟨by decide, fas⟩
+  | .oprop v o, h => by
+    simp only [JsOkE, Bool.and_eq_true] at h
+    simp only [toJsE, JFrag]; exact toJsE_fragJ c o h.2
+  | .chunk k a b d, h => by
+    simp only [JsOkE, Bool.and_eq_true] at h
+    have fa := toJsE_fragJ c a h.1.1
+    have fb := toJsE_fragJ c b h.1.2
+    have fd := toJsE_fragJ c d h.2
+    simp only [toJsE, jmem, JFrag]
+    refine ⟨fd, ?_⟩
+    split
+    · exact fa
+    · simp only [jcall, JFrag, JFragL]; exact ⟨by decide, fa, fb, trivial⟩
+  | .the t k as, h => by
+    match as, h with
+    | [e], h =>
+      rcases jsOkE_the t k e h with ⟨h1, h2⟩ | ⟨op, r, ty, hs, hty, _, _, he⟩ | ⟨rfl, he⟩
+      · have fe := toJsE_fragJ c e (idxJsOk_ok e h2)
+        cases t with
+        | sound => simp only [toJsE, toJsEs, toJsThe, jcall, JFrag, JFragL]; exact ⟨by decide, fe, trivial⟩
+        | sprite => simp only [toJsE, toJsEs, toJsThe, jcall, JFrag, JFragL]; exact ⟨by decide, fe, trivial⟩
+        | cast => simp only [toJsE, toJsEs, toJsThe, jcall, JFrag, JFragL]; exact ⟨by decide, fe, trivial⟩
+        | video => simp only [toJsE, toJsEs, toJsThe, jcall, JFrag, JFragL]; exact ⟨by decide, fe, trivial⟩
+        | _ => simp [Link.theTbl] at h1
+      · have fe := toJsE_fragJ c e he
+        rcases toJsE_strThe c t k e op r ty hs hty with ⟨_, e1⟩ | ⟨_, e1⟩
+        · rw [e1]; simp only [JFrag]; exact ⟨fe, trivial⟩
+        · rw [e1]; simp only [jmem, JFrag]; exact fe
+      · have fe := toJsE_fragJ c e he
+        rw [toJsE_fieldThe]
+        simp only [jcall, JFrag, JFragL]
+        exact ⟨by decide, fe, trivial⟩
+    | [], h =>
+      cases t with
+      | special =>
+        have hk : k < 6 := by simpa [JsOkE] using h
+        simp only [toJsE, toJsEs, toJsThe, hk, if_true, JFrag]
+        exact okId_of "_system" (by decide)
+      | _ => simp [JsOkE] at h
+    | _ :: _ :: _, h => simp [JsOkE] at h
+  | .key v, _ => toJsE_frag c (.key v) trivial
   | .float _ _, h => by simp [JsOkE] at h
   | .me, h => by simp [JsOkE] at h
   | .mcall _ _ _, h => by simp [JsOkE] at h
-  | .plist _, h => by simp [JsOkE] at h
-  | .the _ _ _, h => by simp [JsOkE] at h
-  | .key _, h => by simp [JsOkE] at h
   | .movie _, h => by simp [JsOkE] at h
-  | .oprop _ _, h => by simp [JsOkE] at h
-  | .chunk _ _ _ _, h => by simp [JsOkE] at h
-theorem jsOk_srcL : ∀ (es : List Expr), JsOkL es = true → JsSrcL es
-  | [], _ => trivial
+theorem toJsEs_fragJ (c : JCtx) : ∀ (es : List Expr), JsOkL es = true → JFragL (toJsEs c es)
+  | [], _ => by simp [toJsEs, JFragL]
   | e :: es, h => by
     simp only [JsOkL, Bool.and_eq_true] at h
-    exact ⟨jsOk_src e h.1, jsOk_srcL es h.2⟩
+    simp only [toJsEs, JFragL]
+    exact ⟨toJsE_fragJ c e h.1, toJsEs_fragJ c es h.2⟩
 end
 
 /-- **lexing the translation**: the text of `toJs e` lexes to the reference printer's tokens -/
